@@ -741,6 +741,10 @@ macro_rules! impl_binop_match_arms {
               #[cfg(all(feature = $value_string, feature = "matrixd"))]
             (Value::[<Matrix $lhs_type>](Matrix::DMatrix(lhs)), Value::[<Matrix $lhs_type>](Matrix::DMatrix(rhs))) => {
               let (rows,cols) = {lhs.borrow().shape()};
+              let (rhs_rows,rhs_cols) = {rhs.borrow().shape()};
+              if (rows,cols) != (rhs_rows,rhs_cols) {
+                return Err(MechError::new(DimensionMismatch { dims: vec![rows, cols, rhs_rows, rhs_cols] }, None).with_compiler_loc());
+              }
               Ok(Box::new([<$lib MDMD>]{lhs, rhs, out: Ref::new(DMatrix::from_element(rows,cols,$target_type::default()))}))
             },
             // Row Row
@@ -762,6 +766,10 @@ macro_rules! impl_binop_match_arms {
             #[cfg(all(feature = $value_string, feature = "row_vectord"))]
             (Value::[<Matrix $lhs_type>](Matrix::RowDVector(lhs)), Value::[<Matrix $lhs_type>](Matrix::RowDVector(rhs))) => {
               $registrar!([<$lib RDRD>], $target_type, $value_string);
+              let (lhs_len,rhs_len) = (lhs.borrow().len(), rhs.borrow().len());
+              if lhs_len != rhs_len {
+                return Err(MechError::new(DimensionMismatch { dims: vec![1, lhs_len, 1, rhs_len] }, None).with_compiler_loc());
+              }
               Ok(Box::new([<$lib RDRD>]{lhs: lhs.clone(), rhs, out: Ref::new(RowDVector::from_element(lhs.borrow().len(),$target_type::default())) }))
             },
             // Vector Vector
@@ -783,6 +791,10 @@ macro_rules! impl_binop_match_arms {
             #[cfg(all(feature = $value_string, feature = "vectord"))]
             (Value::[<Matrix $lhs_type>](Matrix::DVector(lhs)), Value::[<Matrix $lhs_type>](Matrix::DVector(rhs))) => {
               $registrar!([<$lib VDVD>], $target_type, $value_string);
+              let (lhs_len,rhs_len) = (lhs.borrow().len(), rhs.borrow().len());
+              if lhs_len != rhs_len {
+                return Err(MechError::new(DimensionMismatch { dims: vec![lhs_len, 1, rhs_len, 1] }, None).with_compiler_loc());
+              }
               Ok(Box::new([<$lib VDVD>]{lhs: lhs.clone(), rhs, out: Ref::new(DVector::from_element(lhs.borrow().len(),$target_type::default())) }))
             },
             // Matrix Vector
